@@ -226,7 +226,7 @@ class Conj(_Overwritable):
             return None
 
         def inv(V, i, k):
-            t, me = V['tt_conj'], V.old('self')
+            t, me = V.working_tt('tt_conj'), V.old('self')
             d = zi(me.order)
             yield 'wf', wf(t)
             yield 'order', zi(t.order) == d
@@ -310,7 +310,7 @@ class Transpose(_Overwritable):
             return None
 
         def inv(V, i, k):
-            t, me = V['tt_transpose'], V.old('self')
+            t, me = V.working_tt('tt_transpose'), V.old('self')
             c = V['cores']
             P = c.pred if isinstance(c, SIndexSet) else (lambda j: z3.BoolVal(True))
             d = zi(me.order)
@@ -380,7 +380,7 @@ class RankTranspose(_Overwritable):
             return None
 
         def inv(V, i, k):
-            t, me = V['tt_transpose'], V.old('self')
+            t, me = V.working_tt('tt_transpose'), V.old('self')
             d = zi(me.order)
             yield 'lengths', z3.And(zi(t.order) == d, zi(t.cores.length) == d, zi(t.row_dims.length) == d, zi(t.col_dims.length) == d, zi(t.ranks.length) == d + 1)
             yield 'metadata-untouched', z3.And(same_ints(t.row_dims, me.row_dims, d), same_ints(t.col_dims, me.col_dims, d), same_ints(t.ranks, me.ranks, d + 1))
